@@ -452,7 +452,19 @@ func checkC02(c *hx.Checker) {
 			v, st, tr := j.s.runHistory(j.seq)
 			stateSets[i], trans[i] = st, tr
 			if v == nil {
-				return hx.OK("history-independent")
+				cls := "plain"
+				for _, o := range j.seq {
+					switch o {
+					case opRunFailRank, opRunFailMissing:
+						cls = "with-failing-calls"
+					case opRunChain:
+						cls = "with-fed-back-state"
+					}
+				}
+				if len(j.seq) == 1 {
+					cls = "single-call"
+				}
+				return hx.OK("history-independent/" + cls)
 			}
 			return v
 		})
